@@ -4,5 +4,5 @@ Require Import ExtrOcamlBasic.
 From OFGA Require Import Cache.Controller.
 Extraction Language OCaml.
 Extraction "c11_model.ml"
-  init_state step run_ops run_outs out_src fresh_atb view touches cfg_ok
+  init_state step run_ops run_outs out_src fresh_atb view touches cfg_ok hist_ok req_ok forest_flat qleaf
   s_now s_db s_ic s_qc s_cl s_mk s_run s_done markers_of_write markers_of_key.
